@@ -100,9 +100,7 @@ Section Mon.
       assert (G4 : minGasLimit <=? h_gaslimit h = true).
       { unfold gas_bound_bad in G3. apply orb_false_iff in G3 as [_ G3]. apply N.ltb_ge in G3. apply N.leb_le. exact G3. }
       rewrite G4. cbn [andb].
-      destruct (h_gaslimit (c_header cs) <? two63) eqn:EP.
-      + apply N.ltb_lt in EP. apply (gas_bound_math _ _ EP G1) in G3 as [G3 _]. apply N.ltb_lt. exact G3.
-      + rewrite G3. reflexivity.
+      apply gas_bound_math in G3 as [G3 _]. apply N.ltb_lt. exact G3.
     - unfold mon_seal. rewrite Ea, <- (ac_coinbase _ _ _ _ _ _ A), bytes_eqb_refl. cbn [andb].
       apply mem_In. apply (ac_member _ _ _ _ _ _ A).
     - unfold mon_window. rewrite Ea.
